@@ -176,6 +176,35 @@ def run(ctx):
                        {"site": "handshake", "cls": "third-party-server-rejects"})
         if model[i] is not None and model[i] != line:
             T.fail("corr", {"line": connrun.scenario_line(scs[i])[:700]}, model[i][:400], line[:400], {"site": "wsconnect"})
+    # trace logging must not change a byte of the request (whatever it masks or reformats in the log)
+    for c in cases[:: max(1, len(cases) // 60)] + [{"url": "ws://h.test/", "opts": o} for o in OPTSETS]:
+        sc0 = {"url": c["url"], "rand": [DRAW], "prepared": [["D", good_response(DRAW).hex()]], "opts": c["opts"]}
+        r0 = connrun.run_impl(sc0)[1]["requests"]
+        r1 = connrun.run_impl(dict(sc0, trace=1))[1]["requests"]
+        T.case(("trace-invariance", c["url"], str(c["opts"])), nontrivial=True, bucket="trace-invariance")
+        if r0 != r1:
+            T.fail("spec", {"kind": "trace", "url": c["url"], "opts": {k: v for k, v in c["opts"].items()}}, (r0[0] if r0 else b"")[:300].decode("latin-1"),
+                   (r1[0] if r1 else b"")[:300].decode("latin-1"), {"site": "handshake", "cls": "trace-changes-request"},
+                   what="with trace logging enabled the request written differs from the one written without it")
+            break
+    # a redirect hop is an ordinary opening handshake to the new target: same request as a direct connection to it (apart from the key)
+    def nokey(r):
+        return b"\r\n".join(l for l in r.split(b"\r\n") if not l.lower().startswith(b"sec-websocket-key"))
+    for first, target in (("ws://a.test/start", "wss://b.test/next?x=1"), ("wss://a.test/", "ws://b.test:8081/p"), ("ws://a.test/", "ws://a.test/other"),
+                          ("ws://a.test/", "wss://[2001:db8::7]:8443/q")):
+        for o in ({}, {"cookie": "c=1"}, {"origin": "https://o.test"}, {"header": ["X-A: 1"]}, {"subprotocols": ["chat"]}):
+            redir = (b"HTTP/1.1 302 Found\r\nLocation: " + target.encode() + b"\r\n\r\n").hex()
+            sc2 = {"url": first, "rand": [DRAW, DRAW], "opts": o, "fake_tls": True,
+                   "net": [{"addrs": ["A"], "script": [["D", redir]]}, {"addrs": ["A"], "script": [["D", good_response(DRAW).hex()]]}]}
+            sc1 = {"url": target, "rand": [DRAW], "opts": o, "fake_tls": True, "net": [{"addrs": ["A"], "script": [["D", good_response(DRAW).hex()]]}]}
+            hop = connrun.run_impl(sc2)[1]["requests"]
+            direct = connrun.run_impl(sc1)[1]["requests"]
+            T.case(("redirect-hop", first, target, str(o)), nontrivial=True, bucket="redirect-hop")
+            if len(hop) != 2 or len(direct) != 1 or nokey(hop[1]) != nokey(direct[0]):
+                T.fail("spec", {"kind": "redirect-hop", "first": first, "target": target, "opts": o}, nokey(direct[0]).decode("latin-1")[:300] if direct else "a request",
+                       (nokey(hop[1]).decode("latin-1")[:300] if len(hop) > 1 else str(len(hop)) + " requests"), {"site": "connect", "cls": "redirect-hop-request"},
+                       what="the request sent to a redirect target differs from the request of a direct connection to that target")
+                break
     # key freshness over successive connections (real os.urandom)
     import websocket
     from sim.sock import HandshakeSock
